@@ -68,7 +68,12 @@ macro_rules! from_hex {
         // non-wasm exposed DeserializeError return
         #[cfg(not(all(target_arch = "wasm32", not(target_os = "emscripten"))))]
         impl $name {
-            pub fn from_hex($data: &str) -> Result<$name, DeserializeError> $body
+            pub fn from_hex($data: &str) -> Result<$name, DeserializeError> {
+                match hex::decode($data) {
+                    Ok(_) => $body,
+                    Err(e) => Err($crate::DeserializeFailure::CustomError(e.to_string()).into()),
+                }
+            }
         }
     };
     // Uses Deserialize trait to auto-generate one
